@@ -175,7 +175,7 @@ def r6(R, repo):
     ini, rs, up = m.func(cls + '.__init__'), m.func(cls + '.reset'), m.func(cls + '.update')
     a, b = _metric_fields(ini), _metric_fields(rs)
     R.judge(len(a) >= 2 and len(b) >= 1, a == b, key_of(rs, 'resets %s' % sorted(a)), rs, '%s.__init__ creates the statistics %s but reset() restores %s' % (cls, sorted(a), sorted(b)))
-    zero = all(astu.src(n.value).startswith('jnp.array(0') for n in astu.body_walk(rs.node) if isinstance(n, ast.Assign))
+    zero = all(astu.src(n.value).startswith('jnp.array(0') for n in astu.body_walk(rs.node) if isinstance(n, ast.Assign) and astu.src(n.targets[0]).startswith('self.'))
     R.check(zero, key_of(rs, 'resets to zero'), rs, '%s.reset must set every statistic back to zero' % cls)
     if m.has_func(cls + '.__init__'):
       dt_i = {n.targets[0].attr: astu.src(astu.kwarg(n.value.args[0], 'dtype')) for n in astu.body_walk(ini.node) if isinstance(n, ast.Assign) and isinstance(n.value, ast.Call) and astu.call_name(n.value) == 'MetricState' and n.value.args and isinstance(n.value.args[0], ast.Call)}
